@@ -4,6 +4,7 @@ import AdaptiveModel.Drv.SaveFs
 import AdaptiveModel.Drv.DataSaver
 import AdaptiveModel.Drv.Avg
 import AdaptiveModel.Drv.Avg1D
+import AdaptiveModel.Drv.Avg1DFull
 import AdaptiveModel.Drv.L1D
 import AdaptiveModel.Drv.Balancing
 import AdaptiveModel.Drv.Tri
@@ -20,6 +21,7 @@ structure All where
   l1 : L1D.Drv.D := {}
   avg : Avg.State Float := Avg.init none none 2
   a1 : Avg1D.State Float := { minSamples := 0, maxSamples := 0, neighborSampling := 0 }
+  a1f : Avg1DFull.Drv.D := {}
   bal : Balancing.Drv.St := Balancing.init [] .cycle
   lnd : LND.Drv.D := {}
   tri : Tri.State := { dim := 2, nVerts := 0, simplices := [], vts := [] }
@@ -33,6 +35,7 @@ def stepAll (a : All) (line : String) : All × String :=
   | "ds" :: rest => let (s, o) := DataSaver.Drv.stepLine a.ds rest; ({ a with ds := s }, o)
   | "avg" :: rest => let (s, o) := Avg.Drv.stepLine a.avg rest; ({ a with avg := s }, o)
   | "a1" :: rest => let (s, o) := Avg1D.Drv.stepLine a.a1 rest; ({ a with a1 := s }, o)
+  | "a1f" :: rest => let (s, o) := Avg1DFull.Drv.stepLine a.a1f rest; ({ a with a1f := s }, o)
   | "l1" :: rest => let (s, o) := L1D.Drv.stepLine a.l1 rest; ({ a with l1 := s }, o)
   | "bal" :: rest => let (s, o) := Balancing.Drv.stepLine a.bal rest; ({ a with bal := s }, o)
   | "integ" :: rest => let (s, o) := Integ.Drv.stepLine a.integ rest; ({ a with integ := s }, o)
